@@ -40,6 +40,8 @@ def gen_program(rng, nmax, lmax):
     if rng.random() < 0.12:
         # large registers, long programs: stabilizer backend only, judged by stabilizer-group equality
         n_e, n_p = int(rng.integers(2, 7)), int(rng.integers(4, 9))
+        if rng.random() < 0.4:
+            n_e, n_p = [(int(rng.integers(11, 13)), int(rng.integers(1, 4))), (int(rng.integers(1, 4)), int(rng.integers(11, 14)))][int(rng.integers(2))]   # two-digit register indices
         return programs.random_program(rng, n_e, n_p, int(rng.integers(1, 4)), int(rng.integers(40, 3 * lmax + 1)))
     while True:
         n_e, n_p = int(rng.integers(0, 4)), int(rng.integers(0, 4))
